@@ -21,7 +21,7 @@ import (
 	"github.com/tencent/goom/internal/zzverif/vh"
 )
 
-const probeArg = 7
+const probeArg = ProbeArg
 
 type target struct {
 	name   string // name below the package path, as ExportFunc / ExportMethod want it
@@ -266,8 +266,10 @@ func classOf(v, orig int) string {
 	switch {
 	case v == orig:
 		return "o"
-	case v >= 100000 && v < 100100:
+	case v >= 100000 && v < 100050:
 		return fmt.Sprintf("c%d", v-100000)
+	case v >= 100050 && v < 100100:
+		return fmt.Sprintf("c%d!arg", v-100050) // the callback ran but did not receive the caller's argument
 	case v >= 200000 && v < 300000:
 		return "s"
 	}
@@ -284,6 +286,15 @@ func safeCall(f func() int, orig int) (res string) {
 }
 
 func behaviour() string {
+	for _, t := range targets {
+		if t.gen {
+			i := int(t.entry - textLo)
+			if !bytes.Equal(curText()[i:i+13], snapshot[i:i+13]) {
+				runtime.GC() // the adapter behind a generic target's jump is referenced from machine code: it must survive a collection
+				break
+			}
+		}
+	}
 	var b []string
 	for _, t := range targets {
 		b = append(b, safeCall(t.call, t.orig))
@@ -450,7 +461,7 @@ func (h *hist) step(toks []string) {
 	if !strings.Contains("femuvxp", via) || len(via) != 1 || (via == "p") != (t.fam == "P") {
 		panic("bad-op")
 	}
-	if toks[0] == "w" && ((t.method != "" && via != "m") || t.gen) { // generic shape bodies take a dictionary first: argument matching on them is C01's subject
+	if toks[0] == "w" && t.method != "" && via != "m" { // generic shape bodies take a dictionary first: argument matching on them is C01's subject
 		panic("bad-op") // When(arg) on a method needs the Struct(..).Method mocker (receiver handling)
 	}
 	if (toks[0] == "a" || toks[0] == "A") && (atoi(toks[4]) < 0 || atoi(toks[4]) >= len(cbF)) {
@@ -549,8 +560,8 @@ func (h *hist) step(toks []string) {
 		v := retVal(t, atoi(toks[4]))
 		if toks[0] == "r" {
 			m.Return(v)
-		} else if isMeth {
-			m.When(probeArg).Return(v)
+		} else if t.fam == "G" {
+			m.When(int64(probeArg)).Return(v)
 		} else {
 			m.When(probeArg).Return(v)
 		}
